@@ -2,6 +2,7 @@ package work
 
 import (
 	"fmt"
+	"time"
 	"unsafe"
 
 	hessian "github.com/vogo/gohessian"
@@ -43,6 +44,18 @@ type BadCplxStruct struct {
 	C complex128
 }
 
+// BadStamped embeds time.Time (first field) and carries an unsupported value next to it
+type BadStamped struct {
+	time.Time
+	C chan int
+}
+
+type BadStamped2 struct {
+	time.Time
+	Note string
+	F    func()
+}
+
 type badKind struct {
 	name     string
 	make     func() interface{}
@@ -68,6 +81,10 @@ func badKinds() []badKind {
 		{"*struct{func}", func() interface{} { return &BadFuncStruct{F: func() {}, N: 2} }, true},
 		{"struct{complex}", func() interface{} { return &BadCplxStruct{S: "s", C: 1i} }, true},
 		{"[]interface{chan}", func() interface{} { return []interface{}{int32(1), make(chan int)} }, false},
+		{"struct{time.Time;chan}", func() interface{} { return BadStamped{Time: time.Unix(1500000000, 5e6), C: make(chan int)} }, true},
+		{"*struct{time.Time;string;func}", func() interface{} {
+			return &BadStamped2{Time: time.Unix(1500000000, 5e6), Note: "n", F: func() {}}
+		}, true},
 		{"nil-chan", func() interface{} { var c chan int; return c }, true},
 		{"*nil-chan", func() interface{} { var c chan int; return &c }, true},
 		{"nil-func", func() interface{} { var f func(); return f }, false},
